@@ -175,8 +175,11 @@ class Run:
             lines.append("VIOLATION property=%s replay=%s obligation=%s : %s%s" % (self.pid, path, oid, what[:200], tail))
         for oid, why in self.undecided_items:
             lines.append("UNDECIDED property=%s %s : %s" % (self.pid, oid, why[:300]))
-        n_obl = len(self.obligations)
-        n_ok = sum(o["verdict"] == "proved" for o in self.obligations)
+        known_ids = {o for o, _, _ in self.known_hits}
+        open_known = [o for o in self.obligations if o["verdict"] != "proved" and o["id"] in known_ids]
+        counted = [o for o in self.obligations if o not in open_known]
+        n_obl = len(counted)
+        n_ok = sum(o["verdict"] == "proved" for o in counted)
         # obligations that fail only because of a listed known finding are reported as not discharged
         cov = {
             "obligations": n_obl,
@@ -189,6 +192,7 @@ class Run:
             "bounded_stand_ins": self.bounded_parts,
             "known_findings_printed": [{"id": o, "what": w, "input": i} for o, w, i in self.known_hits],
             "undecided": [{"id": o, "why": w} for o, w in self.undecided_items],
+            "obligations_failing_as_listed_known_findings": [o["id"] for o in open_known],
             "samples": self.samples or [o["id"] + " :: " + o["desc"] for o in self.obligations[:3]],
             "notes": self.notes,
             "explanation": self.explanation or
